@@ -419,7 +419,7 @@ func wrapCtxOnce(c *lib.Ctx, r *lib.Rand, p *peer, tag, tr, regime string, plan 
 	case regime == "expired-on-entry":
 		ctx, cancel = context.WithDeadline(context.Background(), time.Now().Add(-time.Duration(1+r.Intn(50))*time.Millisecond))
 	case strings.HasPrefix(regime, "expires-in-attempt"):
-		ctx, cancel = context.WithTimeout(context.Background(), 250*time.Millisecond)
+		ctx, cancel = context.WithTimeout(context.Background(), 400*time.Millisecond)
 	default:
 		ctx, cancel = context.WithTimeout(context.Background(), 3*time.Second)
 	}
@@ -508,7 +508,7 @@ func wrapCtxOnce(c *lib.Ctx, r *lib.Rand, p *peer, tag, tr, regime string, plan 
 			continue
 		}
 		if strings.HasPrefix(regime, "expires-in-attempt") && time.Since(start) > 100*time.Millisecond {
-			timingBad = true // the peer was stalled: the deadline (250 ms) may cut into an attempt that was to be answered
+			timingBad = true // the peer was stalled: the deadline (400 ms) may cut into an attempt that was to be answered
 		}
 		ri.R = wallNow().UnixNano()
 		theta := int64(made+1) * 1000 * nsps
